@@ -347,6 +347,9 @@ class BaseTemplate:
         sha = get_pkg_digest()
         # Lone surrogates are part of the source, too
         sha.update(body.encode('utf-8', 'surrogatepass'))
+        # A separator (it cannot occur in a class name) keeps the end of
+        # the body apart from the class name.
+        sha.update(b'\x00')
         sha.update(class_name)
         digest = sha.hexdigest()
 
